@@ -159,8 +159,13 @@ func (w *World) NewPeerNet() *PeerNet {
 
 // AddServer creates a node with the real server on top (elector, peer service, both handler sets).
 func (w *World) AddServer(pn *PeerNet, enableProxy bool) *ServerNode {
+	return w.AddServerAt(pn, enableProxy, fmt.Sprintf("node-%d:3380", len(w.Nodes)))
+}
+
+// AddServerAt starts a node with the given identity (its peer address): a node that comes back after a
+// crash has the identity it had before.
+func (w *World) AddServerAt(pn *PeerNet, enableProxy bool, addr string) *ServerNode {
 	id := len(w.Nodes)
-	addr := fmt.Sprintf("node-%d:3380", id)
 	n := w.addNodeWithIdentity(addr)
 	w.S.SpawnNode = id
 	srv := server.NewServer(n.B, n.M, server.Config{EnableEtcdProxy: false})
@@ -237,13 +242,16 @@ func (b *baseStream) RecvMsg(m interface{}) error  { return nil }
 // EtcdWatchStream is a channel-backed etcdserverpb.Watch_WatchServer.
 type EtcdWatchStream struct {
 	baseStream
-	mu       sync.Mutex
-	Reqs     chan *etcdserverpb.WatchRequest
-	Resps    []*etcdserverpb.WatchResponse
-	SendErr  error // when set, Send fails
-	Cancel   context.CancelFunc
-	Returned bool
-	RetErr   error
+	mu      sync.Mutex
+	Reqs    chan *etcdserverpb.WatchRequest
+	Resps   []*etcdserverpb.WatchResponse
+	SendErr error // when set, Send fails
+	// SendErrOnEvents: Send fails only for responses that carry events (the client went away between the
+	// creation of its watch and the first change)
+	SendErrOnEvents error
+	Cancel          context.CancelFunc
+	Returned        bool
+	RetErr          error
 }
 
 func NewEtcdWatchStream() *EtcdWatchStream {
@@ -256,6 +264,9 @@ func (s *EtcdWatchStream) Send(r *etcdserverpb.WatchResponse) error {
 	defer s.mu.Unlock()
 	if s.SendErr != nil {
 		return s.SendErr
+	}
+	if s.SendErrOnEvents != nil && len(r.Events) > 0 {
+		return s.SendErrOnEvents
 	}
 	s.Resps = append(s.Resps, r)
 	return nil
